@@ -13,19 +13,25 @@ META = {
              'ids and all postings identical, a released value is free and a free value is insertable; and a '
              'small-step model of any number of writers contending for one key (atomic test-and-insert, then the '
              'storage write, then registration; failed add runs its rollback) with one winner for every interleaving '
-             'and a final state equal to a sequential order. Tied to the source by translator-generated facts '
+             'and a final state equal to a sequential order; and a second small-step model of any number of writers each '
+             'replacing its key SET in one unique array index (pre-check, per-key test-and-insert, per-key removal, '
+             'compensation on the failing index) proving that for every schedule the index stays unique and a rejected '
+             'writer keeps exactly its old keys. Tied to the source by translator-generated facts '
              '(step orders, rollback shapes, insert-before-remove, position 0) and by a correspondence run of generated '
              'histories through the real Collection with a direct oracle (full observable state before/after every '
-             'rejected write, postings vs. documents after every operation, insertability probes) plus a concurrent '
-             'run with seeded interleavings of the backend calls.'),
+             'rejected write, postings vs. documents after every operation, insertability probes; BM25/HNSW state in '
+             'oracle-only histories), a concurrent run with seeded interleavings, a systematic enumeration of all '
+             'interleavings of backend calls of 2-3 writers over a parked backend, and crash points of such histories '
+             '(FaultStore power failure, reopen, unique invariant and postings = documents after recovery).'),
     'design_ref': 'DESIGN.md section 4 / C04',
     'note': ('Trusted: Coq kernel + vm_compute; translator (regex anchors); harness h_uniq and its canonicalisation. '
              'Modelled, not verified: postings as sets (UniqueVec order, bucket accounting, the ordered key set and '
              'flush are C10), composite key = injective tuple, Null == missing for indexing, storage faults as an '
-             'oracle input; doc_locks/operation gate are C05; crash recovery of such histories is C01 (not repeated '
-             'here). The concurrent Coq model covers one contested key of one index; partial application of '
-             'insert_array under a racing writer is explored on the implementation only (multi-thread rounds) and is the '
-             'open finding conc-rejected-array-update-leaves-postings (known_findings.json; Coq face: '
+             'oracle input; BM25/HNSW rollback closures are checked by the direct oracle only (not in the Coq model); '
+             'doc_locks/operation gate are C05; recovery itself is C01 (here only: the unique invariant and postings = '
+             'documents hold after recovery at sampled/all crash points). In the array-update concurrent model the '
+             'idempotent re-insert of the old keys during compensation is not a step (it changes no state). '
+             'Finding conc-rejected-array-update-leaves-postings fixed by 197295c (witness for the old order: '
              'C04_conc_array_update_partial_refuted).'),
     'technique': 'Coq proof (invariant by induction over histories; small-step interleaving invariant) + translator-generated facts + differential model/impl run + direct oracle',
 }
@@ -54,7 +60,7 @@ def run(ck):
         return
     # ------------------------------------------------------------------ sequential histories
     out = ck.work + '/seq.jsonl'
-    args = ['seq', '--out', out] + (['--cases', '150', '--len', '36'] if quick else ['--cases', '1500', '--len', '60'])
+    args = ['seq', '--out', out] + (['--cases', '200', '--len', '36'] if quick else ['--cases', '1600', '--len', '60'])
     rc, text = ck.run_harness(binary, args, timeout=3000)
     ok = ck.ob('harness h_uniq seq ran', rc == 0 and os.path.exists(out), 'correspondence', text[-2000:])
     if ok:
@@ -63,7 +69,7 @@ def run(ck):
         model_rows = [r for r in rows if r['kind'] == 'model']
         ck.count(summary['evaluations'])
         ck.cov['input_distribution'] = {k: summary[k] for k in ('cases', 'op_outcomes', 'history_lengths', 'indexes_per_schema',
-                                                                'rejected_noop_checks', 'insertable_probes')}
+                                                                'rejected_noop_checks', 'insertable_probes', 'aux_cases_bm25_hnsw_oracle_only')}
         for f in summary['failures']:
             cls = f['what'].split(':')[0]
             ck.violation(cls, f['what'][:600], True, {'failing_input': f})
@@ -110,4 +116,33 @@ def run(ck):
               all(ck.is_known(f['what'].split(':')[0]) for f in summary['failures']) and
               summary['oracle_failures'] == len(summary['failures']),
               'correspondence', json.dumps(summary['failures'][:2])[:3000])
+    # ------------------------------------------------------------------ every interleaving over a parked backend
+    out3 = ck.work + '/sys.jsonl'
+    rc, text = ck.run_harness(binary, ['sys', '--out', out3, '--cap', '150' if quick else '4000'], timeout=3000)
+    ok = ck.ob('harness h_uniq sys ran', rc == 0 and os.path.exists(out3), 'correspondence', text[-2000:])
+    if ok:
+        summary = [json.loads(l) for l in open(out3)][-1]
+        ck.count(summary['evaluations'])
+        ck.cov['systematic_interleavings'] = summary['scenarios']
+        for f in summary['failures']:
+            ck.violation(f['what'].split(':')[0], f['what'][:600], True, {'failing_input': f})
+        ck.ob('implementation: every interleaving of backend calls (parked backend, depth-first, cap per scenario) of '
+              '%d writer sets contending for one unique value: one winner, final state = the successful operations, '
+              'postings = derive(documents) (%d runs)' % (len(summary['scenarios']), summary['evaluations']),
+              summary['oracle_failures'] == 0, 'correspondence', json.dumps(summary['failures'][:2])[:3000])
+    # ------------------------------------------------------------------ crash points
+    out4 = ck.work + '/crash.jsonl'
+    args = ['crash', '--out', out4] + (['--cases', '6', '--points', '10'] if quick else ['--cases', '30', '--points', '0'])
+    rc, text = ck.run_harness(binary, args, timeout=3000)
+    ok = ck.ob('harness h_uniq crash ran', rc == 0 and os.path.exists(out4), 'correspondence', text[-2000:])
+    if ok:
+        summary = [json.loads(l) for l in open(out4)][-1]
+        ck.count(summary['evaluations'])
+        ck.cov['crash_recovery'] = {k: summary[k] for k in ('cases', 'recoveries', 'crash_points_in_histories')}
+        for f in summary['failures']:
+            ck.violation(f['what'].split(':')[0], f['what'][:600], True, {'failing_input': f})
+        ck.ob('implementation: power failure at %d crash points of C04 histories, reopen: every recovered document is a '
+              'version the history wrote, no two share a unique key, postings = derive(recovered documents), a fresh '
+              'write is accepted' % summary['recoveries'],
+              summary['oracle_failures'] == 0, 'correspondence', json.dumps(summary['failures'][:2])[:3000])
     ck.finish()
